@@ -8,6 +8,7 @@ iterable are unrolled; calls to functions that have a contract use the contract
 (never the body); calls to functions marked inline are executed in place.
 """
 import ast
+import re
 import importlib
 import sys
 import types
@@ -387,6 +388,40 @@ class Frame(object):
                     self.loop_ord[id(node)] = n
 
 
+def local_names(fn):
+    """names bound inside a function (not its parameters), in order of first binding: what loop annotations may mention"""
+    seen, params = [], set()
+    if isinstance(fn, (ast.FunctionDef, ast.Lambda)):
+        a = fn.args
+        params = set(x.arg for x in a.posonlyargs + a.args + a.kwonlyargs) | \
+            set(x.arg for x in (a.vararg, a.kwarg) if x is not None)
+
+    def add(t):
+        for n in ast.walk(t):
+            if isinstance(n, ast.Name) and n.id not in params and n.id not in seen:
+                seen.append(n.id)
+    for node in _walk_no_nested(fn):
+        if isinstance(node, ast.Assign):
+            for t in node.targets:
+                add(t) if not isinstance(t, (ast.Attribute, ast.Subscript)) else None
+        elif isinstance(node, (ast.AugAssign, ast.AnnAssign)):
+            add(node.target) if isinstance(node.target, ast.Name) else None
+        elif isinstance(node, ast.For):
+            add(node.target)
+    return seen
+
+
+def rename_idents(x, ren):
+    """apply a renaming of local names to annotation text (attribute names are left alone)"""
+    if isinstance(x, str):
+        return re.sub(r"(?<![\w.])([A-Za-z_]\w*)\b", lambda m: ren.get(m.group(1), m.group(1)), x)
+    if isinstance(x, dict):
+        return {(rename_idents(k, ren) if isinstance(k, str) else k): rename_idents(v, ren) for k, v in x.items()}
+    if isinstance(x, (list, tuple)):
+        return type(x)(rename_idents(v, ren) for v in x)
+    return x
+
+
 def loop_header(node):
     """the text a loop annotation is bound to"""
     if isinstance(node, ast.While):
@@ -701,6 +736,21 @@ class Exec(object):
                 raise Unsupported("attribute assignment on %r" % (o,))
         elif isinstance(t, ast.Subscript):
             o = self.eval(t.value)
+            if isinstance(t.slice, ast.Slice):
+                sl = t.slice
+                b = [None if x is None else self.eval(x) for x in (sl.lower, sl.upper, sl.step)]
+                if isinstance(o, PList) and all(x is None or (isinstance(x, int) and not isinstance(x, bool)) for x in b) \
+                        and isinstance(v, (PList, tuple)):
+                    self.note_write(o)
+                    new = list(v.items) if isinstance(v, PList) else list(v)
+                    items = list(o.items)
+                    try:
+                        items[slice(*b)] = new
+                    except ValueError:
+                        raise Raised(ValueError, t.lineno, implicit=True)
+                    o.items = items
+                    return
+                raise Unsupported("slice assignment on %r" % (o,))
             idx = self.eval(t.slice)
             self.setitem(o, idx, v, t.lineno)
         else:
@@ -801,8 +851,16 @@ class Exec(object):
             return None
         spec = (c.get("loops") or {}).get(fr.loop_ord.get(id(node)))
         if spec is not None:
-            want = self.engine.loop_headers.get(fr.fref.fq, {}).get(str(fr.loop_ord.get(id(node))))
+            rec = self.engine.loop_headers.get(fr.fref.fq, {})
+            want = rec.get(str(fr.loop_ord.get(id(node))))
             have = loop_header(node)
+            was, now = rec.get("locals"), local_names(fr.fref.node)
+            if was is not None and was != now and len(was) == len(now):
+                # locals were renamed: annotations follow the renaming (same binding order).  Invariants are proof
+                # hints, so a wrong guess here can only leave obligations unproved, never prove a false one.
+                ren = {a: b for a, b in zip(was, now) if a != b}
+                spec = rename_idents(spec, ren)
+                want = rename_idents(want, ren) if want is not None else None
             if want is not None and want != have:
                 raise Unsupported("loop %s of %s was rewritten ('%s' is now '%s'): its invariant is bound to the old "
                                   "loop and no longer applies" % (fr.loop_ord.get(id(node)), fr.fref.fq, want, have))
@@ -2191,6 +2249,14 @@ class Exec(object):
         if self.concrete or (contract is not None and contract.get("inline")) or fq in eng.inline or \
                 fref.closure is not None and eng.contracts.get(fq) is None and eng.inline_closures:
             return self.run_function(fref, env, line)
+        # a callee without a contract (e.g. a helper extracted by a refactoring): executing its real body in place is
+        # always sound; only the nesting is limited, and the evidence lists what was inlined this way
+        if getattr(self, "auto_depth", 0) < 3:
+            self.auto_depth = getattr(self, "auto_depth", 0) + 1
+            try:
+                return self.run_function(fref, env, line)
+            finally:
+                self.auto_depth -= 1
         raise Unsupported("no contract for callee %s (line %s)" % (fq, line))
 
     def run_spec_function(self, fref, env):
